@@ -74,7 +74,18 @@ def class_source(c, classes):
     if c['data'] == 'listnumpy':
         lines.append('        data_class = ListOfNumpyData')
     lines.append(f"    def run(self) -> {ret}:")
-    lines.append(f"        return _run(self, {c['id']})")
+    if c['data'] == 'dir':
+        # a directory result with nested content: the provenance term in a file, and a subdirectory
+        lines.append("        d = self.get_data_object()")
+        lines.append(f"        v = _run(self, {c['id']})")
+        lines.append("        import json as _json")
+        lines.append("        (d.dir / 'value.json').write_text(_json.dumps(v, sort_keys=True, default=str))")
+        lines.append("        (d.dir / 'sub' / 'deeper').mkdir(parents=True)")
+        lines.append("        (d.dir / 'sub' / 'inner.txt').write_text('nested ' + self.slugname)")
+        lines.append("        (d.dir / 'sub' / 'deeper' / 'leaf.txt').write_text('leaf')")
+        lines.append("        return d")
+    else:
+        lines.append(f"        return _run(self, {c['id']})")
     return '\n'.join(lines) + '\n'
 
 
@@ -96,7 +107,13 @@ def provenance(task, cid):
     task.logger.info(f'token:{task.slugname}')
     task.save_to_run_info({'inputs': len(ins)})
     task.save_to_run_info('second')
-    return {'i': ins, 'p': ps, 't': task.slugname}
+    res = {'i': ins, 'p': ps, 't': task.slugname}
+    # parameter objects that asked to be told about the chain (ChainObject): were they?
+    hooks = {name: p.value._tcv_chain is not None for name, p in sorted(task.parameters.items())
+             if hasattr(p.value, '_tcv_chain')}
+    if hooks:
+        res['h'] = hooks
+    return res
 
 
 def json_safe(v):
@@ -387,7 +404,7 @@ def exec_segment(case, mod, ops, fail):
                     out = ['ok', None]
                 else:
                     names = list(first.tasks)
-                    resolved['names'] = sorted({names[k % len(names)] for k in op['picks']})
+                    resolved['names'] = list(dict.fromkeys(names[k % len(names)] for k in op['picks']))
                     try:
                         mc.force(resolved['names'], recompute=op['recompute'], delete_data=op['delete'])
                         out = ['ok', None]
@@ -418,7 +435,7 @@ def exec_segment(case, mod, ops, fail):
                     if 'pick' in op:
                         resolved['name'] = names[op['pick'] % len(names)]
                     if 'picks' in op:
-                        resolved['names'] = sorted({names[k % len(names)] for k in op['picks']})
+                        resolved['names'] = list(dict.fromkeys(names[k % len(names)] for k in op['picks']))
                     if kind == 'value':
                         try:
                             out = ['ok', {'value': chain.tasks[resolved['name']].value}]
